@@ -218,21 +218,25 @@ def comp_block(comp, single):
     return L
 
 
-def config_text(case):
+def other_block(case):
+    f = case["foreign"]
+    return ["colvar {", "  name other", "  distance {", "    group1 {", "      atomNumbers %d" % f[0], "    }",
+            "    group2 {", "      atomNumbers %d" % f[1], "    }", "  }", "}"]
+
+
+def config_text(case, with_other=True):
     L = ["colvar {", "  name v", "  outputTotalForce on", "  outputAppliedForce on"]
     if case["sub"]:
         L.append("  subtractAppliedForce on")
     for c in case["comps"]:
         L += comp_block(c, len(case["comps"]) == 1)
     L.append("}")
-    if case.get("foreign"):
-        f = case["foreign"]
-        L += ["colvar {", "  name other", "  distance {", "    group1 {", "      atomNumbers %d" % f[0], "    }",
-              "    group2 {", "      atomNumbers %d" % f[1], "    }", "  }", "}"]
+    if case.get("foreign") and with_other:
+        L += other_block(case)
     b = case["bias"]
     if b["type"] == "linear":
         L += ["linear {", "  colvars v", "  centers 0.0", "  forceConstant %r" % b["k"], "}"]
-    else:
+    elif b["type"] == "harmonic":
         L += ["harmonic {", "  colvars v", "  centers %r" % b["c"], "  forceConstant %r" % b["k"], "}"]
     return L
 
@@ -242,7 +246,15 @@ def scenario(case, k):
     for i, m in enumerate(case["masses"]):
         L.append("mass %d %s" % (i + 1, hx(m)))
     L += ["temperature %r" % case["T"], "samestep %d" % case["same"], "includecv %d" % case["inc"], "totalforces 1",
-          "nocell", "new", "config EOF"] + config_text(case) + ["EOF"] + (["hidej v"] if case["hide"] else []) + ["show tf 1 af 1 energy 0 bias 0"]
+          "nocell", "new"]
+    late = case.get("late", 0)
+    if late:
+        # the variable is defined while the simulation runs: `late` steps with another variable only
+        L += ["config EOF"] + other_block(case) + ["EOF", "show tf 1 af 1 energy 0 bias 0"]
+        for i, p in enumerate(case["steps"][0]["pos"]):
+            L.append("pos %d %s %s %s" % (i + 1, hx(p[0]), hx(p[1]), hx(p[2])))
+        L += ["step"] * late
+    L += ["config EOF"] + config_text(case, with_other=not late) + ["EOF"] + (["hidej v"] if case["hide"] else []) + ["show tf 1 af 1 energy 0 bias 0"]
     for s in case["steps"]:
         for i, p in enumerate(s["pos"]):
             L.append("pos %d %s %s %s" % (i + 1, hx(p[0]), hx(p[1]), hx(p[2])))
@@ -280,7 +292,7 @@ def parse_impl(lines):
             cs["complete"] = True
             cur = None
         elif w[0] == "CONFIG":
-            cs["config"] = l
+            cs["config"] = l if (cs["config"] is None or "err=ok" in cs["config"]) else cs["config"]
         elif w[0] == "STEP":
             cs["steps"].append({"err": w[2] if len(w) > 2 else "", "atomf": {}, "cv": {}, "tf": {}, "af": {}, "fj": {}, "fold": {}})
         elif cs["steps"]:
@@ -323,6 +335,8 @@ def periodic(case):
 
 def bias_force(case, value):
     b = case["bias"]
+    if b["type"] == "none":
+        return 0.0
     if b["type"] == "linear":
         return -b["k"]
     d = value - b["c"]
@@ -511,7 +525,12 @@ def gen_case(r, idx, typ=None, kinds=None):
         case["bias"] = {"type": "linear", "k": V.dyadic(r, -4, 4, bits=2) or 1.0}
     else:
         case["bias"] = {"type": "harmonic", "k": r.choice([0.5, 1.0, 2.0]), "c": V.dyadic(r, -2, 6, bits=2)}
-    if periodic(case):      # a linear bias is refused on a periodic variable
+    if typ in ("LIN", "LOC", "TIM", "RND") and r.random() < 0.15:
+        case["bias"] = {"type": "none"}         # plain measurement: no bias applies a force to the variable
+        case["hide"] = False
+    if case["foreign"] and r.random() < 0.15:
+        case["late"] = r.randint(1, 2)          # the variable is defined after `late` steps of the run
+    if periodic(case) and case["bias"]["type"] != "none":      # a linear bias is refused on a periodic variable
         case["bias"] = {"type": "harmonic", "k": r.choice([0.0625, 0.125, 0.25]), "c": float(r.randint(-170, 170))}
 
     def geometry():
@@ -662,6 +681,10 @@ def oracle(case, isteps):
                                 t, f, tfs[t], exp, "without the hidden" if case["hide"] else "plus the", fj,
                                 ", minus the applied force (subtractAppliedForce)" if case["sub"] and not case["same"] else "")))
                 break
+    if not case["same"] and tfs[0] != 0.0:
+        out.append(("timing:first-step:%s%s" % (kd, ":late" if case.get("late") else ""),
+                    "lagged convention: at the first step at which the variable is computed%s nothing can have been measured, "
+                    "but the reported total force is %r" % (" (it was defined after %d steps of the run)" % case["late"] if case.get("late") else "", tfs[0])))
     typ = case["type"]
     first = 0 if case["same"] else 1     # report of step t is about step t (same step) or t-1 (lagged)
     if typ == "LIN" and len(tfs) >= 5:
@@ -761,6 +784,13 @@ class Runner:
                     res[k] = {"steps": [], "raw": [], "complete": False, "config": None}
                 if rc1 != 0:
                     crashed[k] = rc1
+        for k, c in enumerate(cases):       # steps made before a late definition are not the variable's
+            late = c.get("late", 0)
+            if late and k in res:
+                pre = res[k]["steps"][:late]
+                res[k]["steps"] = res[k]["steps"][late:]
+                if any(st["err"] != "err=ok" for st in pre) and res[k]["steps"]:
+                    res[k]["steps"][0]["err"] = "err=pre-steps"
         return res, crashed
 
     def models(self, cases, impl):
@@ -831,6 +861,33 @@ def process_twins(run, runner, cases):
         run.dist("twin:subtract")
         for sig, text in oracle_twin(c, a["steps"], b["steps"]):
             run.violation(sig, text, {"kind": "twin", "case": c, "scenario": scenario(c, 0), "twin_scenario": scenario(twins[k], 0)})
+
+
+def process_bias_twins(run, runner, cases):
+    """with and without a bias applying a force: where the engine's total force does not contain Colvars' forces
+    (same-step convention, or lagged with includecv off) the reported total force is the same"""
+    twins = []
+    for c in cases:
+        t = copy.deepcopy(c)
+        t["bias"] = {"type": "none"}
+        twins.append(t)
+    ia, _ = runner.impl(cases)
+    ib, _ = runner.impl(twins)
+    for k, c in enumerate(cases):
+        a, b = ia.get(k), ib.get(k)
+        if not (a and b and a["complete"] and b["complete"] and len(a["steps"]) == len(c["steps"]) == len(b["steps"])):
+            continue
+        run.dist("twin:nobias")
+        for t in range(len(c["steps"])):
+            x, y = a["steps"][t]["tf"].get("v"), b["steps"][t]["tf"].get("v")
+            if x is None or y is None or x != x:
+                continue
+            if not close(x, y, 1e-8):
+                run.violation("nobias:%s:%s" % (kinds_of(c), "samestep" if c["same"] else "lagged"),
+                              "step %d: total force %r with a bias on the variable, %r without any (the engine's total force does not "
+                              "contain Colvars' forces in this scenario, so the two must agree)" % (t, x, y),
+                              {"kind": "scenario", "case": twins[k], "scenario": scenario(twins[k], 0), "with_bias_scenario": scenario(c, 0)})
+                break
 
 
 def load_corpus():
@@ -918,7 +975,13 @@ def check(run):
     tw = tw[:120 if quick else 3000]
     for b0 in range(0, len(tw), B):
         process_twins(run, runner, tw[b0:b0 + B])
-    run.cov["correspondence"].update({"scenarios": len(cases), "subtract_twins": len(tw)})
+    bt = [c for c in cases if c["type"] in ("LIN", "LOC", "TIM", "RND") and c["bias"]["type"] != "none" and not c["hide"]
+          and (c["same"] or (not c["inc"] and not c["sub"])) and not c.get("late") and not any(isinstance(s["ef"], dict) for s in c["steps"])
+          and not any(cc["kind"] == "eigenvector" for cc in c["comps"])]
+    bt = bt[:80 if quick else 2000]
+    for b0 in range(0, len(bt), B):
+        process_bias_twins(run, runner, bt[b0:b0 + B])
+    run.cov["correspondence"].update({"scenarios": len(cases), "subtract_twins": len(tw), "nobias_twins": len(bt)})
 
 
 def replay(path):
